@@ -144,6 +144,8 @@ var nameFamilies = [][]string{
 	{"app", "app-1", "myapp", "app2", "xapp"},
 	{"web", "web-1", "aweb", "web.x"},
 	{"db", "db-1", "adb"},
+	// names that differ in how a number is written only
+	{"job-1", "job-01", "job-001", "job-10", "job-2"},
 }
 
 var advScalars = []string{"yes", "no", "on", "off", "y", "n", "~", "null", "012", "0x1F", "1e3", "1_000", ".inf", "2001-01-01",
